@@ -314,3 +314,120 @@ def op_splitBars_states(meta_idx, requant, tracks, states):
         tb = Sequence.sequences_split_bars(seqs, meta_track_index=meta_idx, quantise_note_lengths=requant)
         return " | ".join(" ".join(P.p_bar(b) for b in bars) for bars in tb)
     return ["splitBars", w(meta_idx), w(requant)] + enc_many(enc_msgs, tracks), P.guarded(f)
+
+
+# ----------------------------------------------------------------------------- D34 / D38: the orphaned note-on that overruns its bar
+
+def _split1(msgs, cap):
+    """harness-side model of what the splitter does to ONE track in ONE round (`RelativeSequence.split([cap])` as recorded, with the
+    recorded defects D8 and D18 in it): returns (piece, rest, more) — `more`: a second piece came back (the track is not exhausted).
+    Note-ons read when the bar is full are deferred to the rest while note-offs of that tick stay (D18's tear); notes sounding across
+    the bar line (as far as the table of sounding notes knows: it is filled by note-ons placed in THIS piece) are closed and re-struck;
+    at the end of the track nothing is closed and a queue of deferred events is dropped (D8)."""
+    wm, cur, queue, open_, rem = list(msgs), [], [], {}, cap
+    pieces = []
+    while True:
+        if not wm:
+            if cur:
+                pieces.append(cur)
+                cur = []
+            break
+        m = wm.pop(0)
+        if m[TY] == ON:
+            if rem > 0:
+                cur.append(m)
+                open_[(m[CH], m[NOTE])] = m
+            else:
+                queue.append(m)
+        elif m[TY] == OFF:
+            cur.append(m)
+            open_.pop((m[CH], m[NOTE]), None)
+        elif m[TY] == WAIT:
+            if m[TIME] <= rem:
+                rem -= m[TIME]
+                cur.append(m)
+            else:
+                if rem > 0:
+                    cur.append(pm(WAIT, m[CH], rem))
+                for (c, p), v in open_.items():
+                    cur.append(pm(OFF, c, None, note=p))
+                    queue.append(pm(ON, c, None, note=p, vel=v[VEL]))
+                queue.append(pm(WAIT, m[CH], m[TIME] - rem))
+                if cur:
+                    pieces.append(cur)
+                wm[0:0] = queue
+                cur = []
+                break
+        else:
+            if rem > 0:
+                cur.append(m)
+            else:
+                queue.append(m)
+    if wm:
+        cur.extend(wm)
+    if cur:
+        pieces.append(cur)
+    if len(pieces) > 1:
+        return pieces[0], pieces[1], True
+    return (pieces[0] if pieces else []), [], False
+
+
+def _unclosed_after_requant_sort(piece):
+    """the note-ons of a bar piece that the re-quantiser's pairing finds unclosed, as [(channel, pitch, tick in the bar)]: the piece goes
+    through the absolute view, whose sort key is (tick, channel, type, pitch) with note-off before note-on; a note-on of a sounding key
+    closes the earlier one, a note-off of a silent key is ignored"""
+    timed, _ = rel_timed(piece)
+    ev = sorted([(t, -1 if m[CH] is None else m[CH], m[TY], m[NOTE]) for t, m in timed if m[TY] in (ON, OFF)])
+    open_ = {}
+    for (t, c, ty, p) in ev:
+        if ty == ON:
+            open_[(c, p)] = t
+        else:
+            open_.pop((c, p), None)
+    return [(c, p, t) for (c, p), t in open_.items()]
+
+
+def predict_overflows(tracks, ts_queue, standard_length, allowed):
+    """D34 / D38: where does `BarException: Bar capacity exceeded` come from when re-quantisation is on?  The bars are walked as the
+    splitter walks them (signature queue `ts_queue` = [(tick, (n, d), channel)] in the order the splitter holds it, one change per bar:
+    `lag_walk`), every track is cut round by round with `_split1`, and in every piece the note-ons that stay unclosed are closed
+    `standard_length` later (shortened to the largest allowed value not above it — both stored with the finding).  Returns
+    [(track, bar, bar_start, (channel, pitch), tick_in_bar, bar_length)] for every piece whose imputed note-off lies beyond the bar."""
+    best = requant_prediction(standard_length, allowed)
+    out = []
+    if best is None:
+        return out
+    rest = [list(t) for t in tracks]
+    for k, (start, length, _sig, _key, _a, _b) in enumerate(lag_walk(ts_queue, [], 400)):
+        if length <= 0:
+            break
+        more_any = False
+        for i in range(len(rest)):
+            piece, rest[i], more = _split1(rest[i], length) if rest[i] else ([], [], False)
+            more_any = more_any or more
+            for (c, p, t) in _unclosed_after_requant_sort(piece):
+                if t + best > length:
+                    out.append((i, k, start, (c, p), t, length))
+        if not more_any:
+            break
+    return out
+
+
+def classify_overflows(tracks, ts_queue, standard_length, allowed):
+    """`predict_overflows` with the ORIGIN of each orphaned note-on: `torn` — its key is that of a zero-length note of the same track
+    sitting on a bar start (after tick 0, at or before the overflowing bar) of the grid the splitter walks: split deferred the note-on
+    and left the note-off behind (D18b), the never-ending remainder is re-struck bar after bar (D38); `sorted` — its key is that of
+    another zero-length note of the track: inside the bar piece the sort put the note-off before the note-on (D34); `other` — neither
+    (no recorded defect explains it)."""
+    starts = []
+    for (s, L, *_r) in lag_walk(ts_queue, [], 400):
+        starts.append(s)
+        if L <= 0:
+            break
+    out = []
+    for (i, k, start, key, t, length) in predict_overflows(tracks, ts_queue, standard_length, allowed):
+        zl = zero_length_keys(tracks[i])
+        torn = {(c, p) for (c, p, tick, _v) in zl if tick in starts and 0 < tick <= start}
+        label = "torn" if key in torn else ("sorted" if key in {(c, p) for (c, p, _t, _v) in zl} else "other")
+        out.append((label, i, k, start, key, t, length))
+    return out
